@@ -606,6 +606,14 @@ def reduce_minmax(st, a, which):
         if r is None:
             raise Raised('ValueError', 'zero-size array to reduction operation')
         return r
+    if len(shape) == 1:
+        # canonical named extremum (same array => same constant); its axioms are added by the solver
+        j = fresh_int('j')
+        body = fn((Sc(j),))
+        if isinstance(body, Sc):
+            st.oblige('safe.%s_nonempty' % which, compare('>', shape[0], 0), kind='safe')
+            return wrap(sym.EXTREMA.atom(to_z3(shape[0], 'int'), j, body.t, which))
+        return body
     m = fresh_real(which) if kind not in ('int', 'nat') else fresh_int(which)
     ks = [fresh_int('w') for _ in shape]
     inr = True
